@@ -1318,6 +1318,22 @@ def replay(ctx, path):
     r = json.loads(open(path).read())
     rp = r.get("replay", {})
     cfg = rp.get("cfg")
+    if rp.get("argv") is not None and not cfg:
+        # command-line stream: the argument vector through the real parser and the real runner (recording generators)
+        from . import cliparse_tie as ct
+        impl = ct.Impl()
+        a = impl.answer(rp["argv"])
+        out = {"argv": rp["argv"], "parser": a["status"]}
+        bad = False
+        if a["status"] == "ok":
+            p = impl.plan(a["args"])
+            args = a["args"]
+            listing = bool(args.list_outputs or args.list_inputs or args.list_configuration or args.dry_run)
+            out["calls"] = [[t, fn, {k: repr(v) for k, v in kw.items()}] for t, fn, kw in p.get("calls", [])]
+            bad = any(fn == "generate_all" and listing and not kw.get("is_dryrun", False) for t, fn, kw in p.get("calls", []))
+        print(json.dumps(out, indent=1))
+        ctx.cleanup()
+        return 1 if bad else 0
     if not cfg:
         print("nothing to replay (no failing input in the file)")
         return 1
